@@ -515,6 +515,26 @@ macro_rules! mk_impl {
                 (format!("hist{}/{}", W, if tag.is_empty() { "trivial".to_string() } else { tag }), term)
             }
 
+            /// The round trip recorded in DESIGN.md section 7 (C06): zero fees, default impact factors;
+            /// LP1 deposits `l1` long tokens, LP2 deposits `s2` short tokens and withdraws all minted tokens
+            /// at unchanged prices (long `pl`, short `ps`, no spread).
+            pub fn round_trip_witness(l1: $U, s2: $U, pl: $U, ps: $U) -> (String, String) {
+                let mut cfg = Cfg::default();
+                cfg.swap_fee = [0, 0, 0, 0];
+                let (div, adj): ($U, $U) = if W == 64 { (1, 10_000) } else { ((10 as $U).pow(DEC - 9), (10 as $U).pow(10)) };
+                let mut m = M::new(div, adj, cfg.build());
+                let init = state(&m);
+                let p = Prices { index_token_price: Price { min: pl, max: pl }, long_token_price: Price { min: pl, max: pl }, short_token_price: Price { min: ps, max: ps } };
+                let mut flags = std::collections::BTreeSet::new();
+                let mut ops = vec![];
+                ops.push(do_deposit(&mut m, l1, 0, p, &mut flags).0);
+                let (t, minted) = do_deposit(&mut m, 0, s2, p, &mut flags);
+                ops.push(t);
+                if let Some(minted) = minted { ops.push(do_withdraw(&mut m, minted, p, &mut flags)); flags.insert('R'); }
+                let tag: String = flags.iter().collect();
+                (format!("witness{}/{}", W, tag), format!("Hist {} {} {} {} [{}]", W, DEC, cfg.coq(), init, ops.join("; ")))
+            }
+
             fn gen_deposit(rng: &mut Rng, m: &M, px: &Px, tok_scale: $U) -> ($U, $U) {
                 let ref_l = if m.primary.long_amount == 0 { tok_scale } else { m.primary.long_amount / 2 };
                 let short_eq = tok_scale.saturating_mul((px.long / px.short.max(1)).max(1));
